@@ -60,6 +60,7 @@ int sqfs_writer_init(sqfs_writer_t *sqfs, const sqfs_writer_cfg_t *wrcfg)
 {
 	sqfs_block_processor_desc_t blkdesc;
 	sqfs_compressor_config_t cfg;
+	sqfs_file_handle_t hnd;
 	fstree_defaults_t fsd;
 	int ret, flags;
 
@@ -71,9 +72,19 @@ int sqfs_writer_init(sqfs_writer_t *sqfs, const sqfs_writer_cfg_t *wrcfg)
 		return -1;
 	}
 
-	ret = sqfs_file_open(&sqfs->outfile, wrcfg->filename, wrcfg->outmode);
+	ret = sqfs_native_file_open(&hnd, wrcfg->filename, wrcfg->outmode);
 	if (ret) {
 		sqfs_perror(wrcfg->filename, "open", ret);
+		return -1;
+	}
+
+	ret = sqfs_file_open_handle(&sqfs->outfile, wrcfg->filename,
+				    hnd, wrcfg->outmode);
+	if (ret) {
+		/* the file exists now, don't leave it behind */
+		sqfs_perror(wrcfg->filename, "open", ret);
+		sqfs_native_file_close(hnd);
+		remove_output_file(wrcfg->filename);
 		return -1;
 	}
 
